@@ -144,6 +144,19 @@ class FabRun:
       elif k == "alive":
         r = af.is_alive()
         self.emit(["alive", "T" if r else "F", "", ""])
+        self.emit(["single", self.not_single(), "", ""])
+
+  def singles(self):
+    """the process-wide singletons, requested the way a client does"""
+    import miros.event as mev
+    import miros.activeobject as ma
+    return {"ActiveFabric": ma.ActiveFabric(), "FiberThreadEvent": ma.FiberThreadEvent(), "InstrumentionWriter": ma.InstrumentionWriter(),
+            "Signal": mev.Signal(), "ReturnStatus": mev.ReturnStatus()}
+
+  def not_single(self):
+    """C30 (for the life of the process): names of the singletons that no longer yield the instance they yielded at first"""
+    now = self.singles()
+    return ",".join(sorted(n for n in now if now[n] is not self.first[n]))
 
   def fix_names(self):
     self.af.fifo_fabric_queue.vname = "pq_fifo"
@@ -163,6 +176,7 @@ class FabRun:
           return None
         sched.name_for_thread = name_for_thread
         self.af = ma.ActiveFabric()
+        self.first = self.singles()
         self.fix_names()
         self.queues, self.qname = [], {}
         import itertools as _it
